@@ -359,6 +359,11 @@ func runC16(c *core.Ctx, o Options) {
 	c.RulePrefix = ""
 	c.Explanation += " J6 premise (= C04.F1–F3): the connection reader frames on a start-anchored \"10=\" segment and nothing else, so a damaged message does not swallow the valid one behind it. J4 also covers the formatters (the Reject's RefSeqNum is written by Int.ToBytes)."
 	c.Explanation += " J2 premise: every path that sets WaitingTestReqAnswer has read the state as SuccessfulLogged (the all-types handler takes any inbound message, damaged ones too, for the answer to the probe). J5 premise: the rules V1–V6 of C03 hold (a damaged message is rejected only if the integrity check sees the damage)."
+	// J7 (premises): the length arithmetic of the integrity check measures the fields as received (KeyValue.ToBytes emits a populated
+	// field whatever its value); the counter store never refuses a number (a refusal stops the all-types chain)
+	checkLeafProducers(c, "J7")
+	checkCounterStorePlain(c, "J1")
+	c.Explanation += " J7 premise: the leaf producers of C17.S (KeyValue.ToBytes). J1 also: SetSeqNum returns nil on every path."
 	c.RuleMin = map[string]int{"J1": 20, "J2": 5, "J3": 2, "J4": 14, "J5": 12, "J6": 8}
 	c.MinObl = 5*5 + 2
 }
@@ -588,6 +593,7 @@ func runC14(c *core.Ctx, o Options) {
 	// store's mutex is taken by every send when it saves)
 	checkLocksReleased(c, "Q7", libFuncs(c), "the next send — the Heartbeat answering a TestRequest included — blocks for ever")
 	c.Explanation += " Q3 also: event subscribers and the logon callback run with no session mutex held. Q4 premises: the reader's end-of-message test is start-anchored; value formatters emit a populated value as it is and value parsers are the exact inverses (a TestRequest with a large MsgSeqNum still decodes). Q7 premise: no function of the library returns with a mutex it took still locked. Q6 also: ServeIncoming hands over with one blocking select {incoming <- msg; <-ctx.Done()}. Q8 premise: the integrity rules V1–V7 of C03. Q5 premise: the all-types handlers in front of the TestRequest handler neither stop the dispatch (except on a store failure) nor answer."
+	checkCodecs(c, "Q4", map[string]bool{"set": true, "type:String": true})
 	c.RuleMin = map[string]int{"Q0": 8, "Q1": 1, "Q2": 1, "Q3": 7, "Q4": 12, "Q5": 5, "Q6": 6, "Q8": 12, "Q7": 15}
 	c.MinObl = 7
 }
